@@ -79,6 +79,24 @@ func New(n int, edges []Edge, o Opts) (*Mesh, error) {
 	if lat == 0 {
 		lat = 5
 	}
+	// the labels of one router's links must differ (AddLink refuses a label that is in use): bump duplicates
+	used := map[int]map[m.SwitchLabel]bool{}
+	take := func(n int, l m.SwitchLabel) m.SwitchLabel {
+		if used[n] == nil {
+			used[n] = map[m.SwitchLabel]bool{}
+		}
+		for used[n][l] || l == 0 {
+			l++
+		}
+		used[n][l] = true
+		return l
+	}
+	edges = append([]Edge(nil), edges...)
+	for i := range edges {
+		edges[i].LA = take(edges[i].A, edges[i].LA)
+		edges[i].LB = take(edges[i].B, edges[i].LB)
+	}
+	ms.Edges = edges
 	for _, e := range edges {
 		if _, _, err := ms.W.Connect(ms.Nodes[e.A-1], ms.Nodes[e.B-1], e.LA, e.LB, lat); err != nil {
 			return nil, err
